@@ -15,6 +15,16 @@ pub fn check_doc(spec: &DocSpec) -> Result<bool, (String, String)> {
         Ok(Ok(())) => {}
     }
     verify_file(&out, 0, &build(spec), spec.xref_stream).map_err(|e| ("strict-reader".to_string(), e))?;
+    // the same document through a sink that accepts at most 7 bytes per call (a pipe, a socket): the statement is about
+    // the file that reaches the sink, whatever the sink's write granularity, so the strict reader must accept that file too
+    let mut d2 = build(spec);
+    let mut sink = crate::sinks::Sink::new(crate::sinks::Mode::Chunk(7));
+    match guarded(std::panic::AssertUnwindSafe(|| d2.save_to(&mut sink))) {
+        Err(p) => return Err(("save-no-panic".into(), format!("save to a short-writing sink panicked: {}", p))),
+        Ok(Err(e)) => return Err(("save-ok".into(), format!("save to a short-writing sink failed: {}", e))),
+        Ok(Ok(())) => {}
+    }
+    verify_file(&sink.delivered, 0, &build(spec), spec.xref_stream).map_err(|e| ("strict-reader-short-writes".to_string(), format!("file delivered to a sink taking 7 bytes per call: {}", e)))?;
     Ok(!spec.objects.is_empty())
 }
 
@@ -72,7 +82,7 @@ pub fn check_incremental(spec: &DocSpec, base_spec: &DocSpec, strip_newline: boo
 }
 
 pub fn strict(thorough: bool) -> Report {
-    let mut rep = Report::new("all documents of gen::docs (alphabet of 27 leaves + containers, 5 id layouts, both xref formats); incremental: each over 2 bases x newline/no-newline", true);
+    let mut rep = Report::new("all documents of gen::docs (alphabet of 27 leaves + containers, 5 id layouts, both xref formats), each saved to a Vec and to a sink that takes at most 7 bytes per call; incremental: each over 2 bases x newline/no-newline", true);
     let specs = docs(thorough);
     for s in &specs {
         match check_doc(s) {
